@@ -2,6 +2,10 @@
 loaded through the real loader and handed to a per-property `check_program(L, prog, part)`."""
 from __future__ import annotations
 
+import json
+import os
+import subprocess
+import sys
 from typing import Any, Callable, Dict, List, Optional, Tuple
 
 from mcx.core import Part
@@ -95,7 +99,44 @@ def make_unit_fn(prop: str, check_program: Callable[[harness.Loaded, Dict[str, A
     return unit_fn
 
 
-def replay_with(unit_fn: Callable[[Any], Part], case: Any) -> List[Tuple[str, str]]:
+def backend() -> str:
+    return "pure" if os.environ.get("VERIF_PURE_BITSTRUCT") else "c"
+
+
+def other_backend(ctx: Any, prop: str) -> None:
+    """Run the same exploration in a process in which bitstruct.c is not importable and merge its result."""
+    from mcx.core import VERIF, HarnessError
+    env = dict(os.environ, VERIF_PURE_BITSTRUCT="1", VERIF_SEED=str(ctx.seed))
+    code = ("import sys, json; sys.path.insert(0, %r); from mcx.core import sub_main; sub_main(%r, %r)" % (VERIF, prop, ctx.tier))
+    r = subprocess.run([sys.executable, "-W", "ignore", "-c", code], env=env, capture_output=True, text=True, cwd=VERIF)
+    lines = [l for l in r.stdout.splitlines() if l.startswith("SUBRESULT ")]
+    if r.returncode != 0 or not lines:
+        raise HarnessError("pure-backend subprocess failed: " + r.stderr[-1500:])
+    other = json.loads(lines[-1][len("SUBRESULT "):])
+    for k, v in other["viol"].items():
+        if k not in ctx.viol or v[0] < ctx.viol[k][0]:
+            ctx.viol[k] = (v[0], v[1], v[2])
+    ctx.nviol += other["nviol"]
+    ctx.extra["pure_backend"] = {"evaluations": other["counts"].get("evaluations", 0), "violating_keys": sorted(other["viol"])[:50]}
+    ctx.guard("the pure backend evaluated the same number of cases", other["counts"].get("evaluations", -1) == ctx.counts.get("evaluations", 0))
+    ctx.counts["evaluations"] = ctx.counts.get("evaluations", 0) + other["counts"].get("evaluations", 0)
+
+
+def replay_with(unit_fn: Callable[[Any], Part], case: Any, prop: Optional[str] = None) -> List[Tuple[str, str]]:
+    bk = case.get("backend", backend())
+    if bk != backend() and prop is not None:
+        from mcx.core import VERIF, HarnessError
+        env = dict(os.environ)
+        if bk == "pure":
+            env["VERIF_PURE_BITSTRUCT"] = "1"
+        else:
+            env.pop("VERIF_PURE_BITSTRUCT", None)
+        code = ("import sys, json; sys.path.insert(0, %r); from mcx.core import sub_replay; sub_replay(%r, sys.stdin.read())" % (VERIF, prop))
+        r = subprocess.run([sys.executable, "-W", "ignore", "-c", code], env=env, input=json.dumps(case), capture_output=True, text=True, cwd=VERIF)
+        line = [l for l in r.stdout.splitlines() if l.startswith("SUBRESULT ")]
+        if not line:
+            raise HarnessError("replay subprocess failed: " + r.stderr[-800:])
+        return [tuple(x) for x in json.loads(line[-1][len("SUBRESULT "):])]
     prog = case_prog(case["program"], case.get("values"))
     if "pdu" in case:
         prog["pdus"] = [bytes.fromhex(case["pdu"])]
@@ -149,7 +190,7 @@ def traced_decode(msg: Any, pdu: bytes) -> Tuple[Any, Optional[BaseException], i
         try:
             v = msg.decode_from_pdu(st)
         except BaseException as e:  # noqa
-            if isinstance(e, (KeyboardInterrupt, SystemExit, MemoryError)):
+            if isinstance(e, (KeyboardInterrupt, SystemExit)):
                 raise
             return None, e, 0, getattr(st, "xtrace", [])
     return v, None, max(st.cursor_byte_position, getattr(st, "max_end", 0)), getattr(st, "xtrace", [])
